@@ -1,7 +1,7 @@
 (* Suites.v: entry points of the extracted model runner.  A case is a list of length-framed
    fields; the result is one line of bytes.  All parsing and printing is Gallina, so that the
    OCaml driver only moves bytes. *)
-From BCL Require Import Model.DumpLoad.
+From BCL Require Import Model.DumpLoad Model.Lexer.
 Open Scope N_scope.
 
 Definition sp : N := 32.
@@ -62,9 +62,33 @@ Definition suite_uvarint (c : bytes) : bytes :=
   hex_of_bytes (uv_enc x) ++ [sp] ++
   match uv_dec (uv_enc x) with Some (y, n) => dec_of_N y ++ [sp] ++ dec_of_N (N.of_nat n) | None => bs "none" end.
 
+Definition show_lexerr (e : lexerr) : bytes :=
+  match e with
+  | LE_expected_char r => bs "expected-" ++ dec_of_N r
+  | LE_unknown_char r => bs "unknown-" ++ dec_of_N r
+  | LE_invalid_syntax t => bs "syntax-" ++ hex_of_bytes t
+  | LE_dot_digits => bs "dot"
+  | LE_exp_digits => bs "exp"
+  | LE_unterminated => bs "unterminated"
+  end.
+Definition show_token (t : token) : bytes :=
+  tok_name (ttyp t) ++ [58] ++
+  match terr t with Some e => show_lexerr e | None => hex_of_bytes (tval t) end
+  ++ [58] ++ dec_of_N (tpos t).
+Definition suite_lex (c : bytes) : bytes :=
+  let '(ts, l) := lex (fields c) in
+  bs "toks=" ++ commas (map show_token ts) ++ bs " lfs=" ++ commas (map dec_of_N l).
+Definition suite_linecol (c : bytes) : bytes :=
+  match fields c with
+  | l :: p :: _ => let '(ln, col) := line_col_at (nums l) (num_of p) in dec_of_N ln ++ [58] ++ dec_of_Z col
+  | _ => bs "bad-case"
+  end.
+
 Definition run_suite (name : bytes) (c : bytes) : bytes :=
   if bytes_eqb name (bs "dump") then suite_dump c
   else if bytes_eqb name (bs "load") then suite_load c
   else if bytes_eqb name (bs "loadwhole") then suite_load_whole c
   else if bytes_eqb name (bs "uvarint") then suite_uvarint c
+  else if bytes_eqb name (bs "lex") then suite_lex c
+  else if bytes_eqb name (bs "linecol") then suite_linecol c
   else bs "unknown-suite".
